@@ -123,6 +123,15 @@ func recC09(c *ctx) {
 		return b
 	}
 
+	// a wrong-length key RELATED to the key of a valid entry (that key followed by extra bytes), carrying that entry's valid
+	// signature: whatever the verifier remembers about neighbouring entries, this one has a malformed key
+	relatedKey := func(b0 bentry, extra int) bentry {
+		b := b0
+		b.rq.pk = append(append([]byte(nil), b0.rq.pk...), make([]byte, extra)...)
+		b.rq.cls.aDec = false
+		return b
+	}
+
 	// callers commonly reuse one buffer for the key of successive calls: every key goes through keybuf (each call is
 	// complete before the buffer is overwritten, so this must not matter)
 	keybuf := make([]byte, 32)
@@ -324,6 +333,23 @@ func recC09(c *ctx) {
 			}
 			batchonly()
 			verify()
+		}
+		// an entry whose key is the previous entry's key plus trailing bytes, on the expanding and on the forced path
+		if h%4 == 1 || h%4 == 2 {
+			for _, extra := range []int{1, 8, 32} {
+				bv.Reset()
+				emit(vt.Ev{"op": "reset"})
+				if h%4 == 2 {
+					bv.ForceNoPublicKeyExpansion()
+					emit(vt.Ev{"op": "force"})
+				}
+				b0 := mk(0)
+				add(b0, 0)
+				add(relatedKey(b0, extra), 0)
+				add(mk(0), 0)
+				batchonly()
+				verify()
+			}
 		}
 		// malformed entries through the NON-expanding addition path (forced, so that it does not take 94 entries to get
 		// there): every kind of malformed entry among valid ones
